@@ -65,7 +65,13 @@ func sanitizeSelectionSet(ctx *PlanningContext, selectionSet ast.SelectionSet, i
 				childSelectionSet = sanitizeInterfaceInlineFragment(ctx, childSelectionSet, s)
 				result = addSelectionSetToSanitizedResult(result, childSelectionSet...)
 			case ast.Union:
-				childSelectionSet = sanitizeUnionInlineFragment(ctx, childSelectionSet, s)
+				if t := ctx.Schema.Types[s.TypeCondition]; t != nil && (t.Kind == ast.Interface || t.Kind == ast.Union) && t.Name != s.ObjectDefinition.Name {
+					// a fragment on another abstract type is written out for the member types it applies to,
+					// the service of the union does not have to know that type
+					childSelectionSet = sanitizeInterfaceInlineFragment(ctx, childSelectionSet, s)
+				} else {
+					childSelectionSet = sanitizeUnionInlineFragment(ctx, childSelectionSet, s)
+				}
 				result = addSelectionSetToSanitizedResult(result, childSelectionSet...)
 			default:
 				result = addSelectionSetToSanitizedResult(result, childSelectionSet...)
